@@ -207,6 +207,7 @@ def Reach : (s : Shape) → St s → List Call → Prop
   | .tbt, st, evs => LeafReach .tbt st evs
   | .etod c, (_, inner), evs => Reach c inner (evs.map (degradeCall (caps c)))
   | .deco c, st, evs => Reach c st evs
+  | .ffbox _ _ c, (_, inner), evs => Reach c inner evs
   | .tagger _ _ c, st, evs => Reach c st evs
   | .tfr c, (_, inner), evs => Reach c inner (tfrView evs)
   | .multi cs, (_, inner), evs => ReachL cs inner evs
@@ -277,6 +278,11 @@ theorem reach_steps : ∀ (s : Shape), s.noStream = true → ∀ (cs : List Call
       have hc := reach_steps ch (by simpa [Shape.noStream] using hn) [c] st e (by simpa [Reach] using h)
       simp only [Reach] at h ⊢
       cases c <;> first | simpa [step] using hc | simpa [step] using h)
+  | .ffbox l b ch, hn => lift _ (fun st e c h => by
+      obtain ⟨f, inner⟩ := st
+      have hc := reach_steps ch (by simpa [Shape.noStream] using hn) [c] inner e (by simpa [Reach] using h)
+      simp only [Reach] at h ⊢
+      cases c <;> first | simpa [step] using hc | simpa [step] using h)
   | .tagger n g ch, hn => lift _ (fun st e c h => by
       have hn' : ch.noStream = true := by simpa [Shape.noStream] using hn
       have hc := reach_steps ch hn' [c] st e (by simpa [Reach] using h)
@@ -317,6 +323,8 @@ theorem reach_init : ∀ (s : Shape), s.noStream = true → Reach s (init s) []
   | .tfr ch, hn => by
       simp only [Reach, init]; exact reach_init ch (by simpa [Shape.noStream] using hn)
   | .deco ch, hn => by
+      simp only [Reach, init]; exact reach_init ch (by simpa [Shape.noStream] using hn)
+  | .ffbox _ _ ch, hn => by
       simp only [Reach, init]; exact reach_init ch (by simpa [Shape.noStream] using hn)
   | .tagger _ _ ch, hn => by
       simp only [Reach, init]; exact reach_init ch (by simpa [Shape.noStream] using hn)
@@ -384,6 +392,7 @@ def expectV : Shape → List Call → List (List Call)
   | .tbt, evs => [evs]
   | .etod c, evs => expectV c (evs.map (degradeCall (caps c)))
   | .deco c, evs => expectV c evs
+  | .ffbox _ _ c, evs => expectV c evs
   | .tagger _ _ c, evs => expectV c evs
   | .tfr c, evs => expectV c (tfrView evs)
   | .e2s c, evs => expectV c evs
@@ -422,6 +431,8 @@ theorem reach_tlogs : ∀ (s : Shape), s.noStream = true → ∀ (st : St s) (ev
       simp only [leaves, expectV]; exact reach_tlogs ch (by simpa [Shape.noStream] using hn) inner _ h
   | .deco ch, hn, st, evs, h => by
       simp only [leaves, expectV]; exact reach_tlogs ch (by simpa [Shape.noStream] using hn) st _ h
+  | .ffbox _ _ ch, hn, (_, inner), evs, h => by
+      simp only [leaves, expectV]; exact reach_tlogs ch (by simpa [Shape.noStream] using hn) inner _ h
   | .tagger _ _ ch, hn, st, evs, h => by
       simp only [leaves, expectV]; exact reach_tlogs ch (by simpa [Shape.noStream] using hn) st _ h
   | .multi ss, hn, (own, inner), evs, h => by
@@ -480,6 +491,8 @@ theorem expectV_eq : ∀ (s : Shape) (evs : List Call), (tfrView evs = evs ∨ s
       refine expectV_eq c _ (h.imp (fun h => ?_) (fun h => by simpa [Shape.hasTfr] using h))
       rw [tfrView_map, h]
   | .deco c, evs, h => by
+      simp only [expectV, expect]; exact expectV_eq c _ (h.imp id (fun h => by simpa [Shape.hasTfr] using h))
+  | .ffbox _ _ c, evs, h => by
       simp only [expectV, expect]; exact expectV_eq c _ (h.imp id (fun h => by simpa [Shape.hasTfr] using h))
   | .tagger _ _ c, evs, h => by
       simp only [expectV, expect]; exact expectV_eq c _ (h.imp id (fun h => by simpa [Shape.hasTfr] using h))
@@ -609,6 +622,7 @@ theorem expect_rel (Q : List Call → List Call → Prop) (hrefl : ∀ evs, Q ev
   | .tbt, evs, l, h => by simp only [expect, List.mem_singleton] at h; subst h; exact hrefl _
   | .etod c, evs, l, h => hstep _ _ _ (expect_rel Q hrefl hstep c _ l (by simpa [expect] using h))
   | .deco c, evs, l, h => expect_rel Q hrefl hstep c _ l (by simpa [expect] using h)
+  | .ffbox _ _ c, evs, l, h => expect_rel Q hrefl hstep c _ l (by simpa [expect] using h)
   | .tagger _ _ c, evs, l, h => expect_rel Q hrefl hstep c _ l (by simpa [expect] using h)
   | .tfr c, evs, l, h => expect_rel Q hrefl hstep c _ l (by simpa [expect] using h)
   | .e2s c, evs, l, h => expect_rel Q hrefl hstep c _ l (by simpa [expect] using h)
@@ -824,6 +838,9 @@ theorem reach_tbt : ∀ (s : Shape), s.noStream = true → ∀ (st : St s) (evs 
   | .deco ch, hn, st, evs, h, hf => by
       simp only [leaves, isTbtLeaf, expectV]
       exact reach_tbt ch (by simpa [Shape.noStream] using hn) st _ h (fun ht => hf (by simpa [Shape.hasTbt] using ht))
+  | .ffbox _ _ ch, hn, (_, inner), evs, h, hf => by
+      simp only [leaves, isTbtLeaf, expectV]
+      exact reach_tbt ch (by simpa [Shape.noStream] using hn) inner _ h (fun ht => hf (by simpa [Shape.hasTbt] using ht))
   | .tagger _ _ ch, hn, st, evs, h, hf => by
       simp only [leaves, isTbtLeaf, expectV]
       exact reach_tbt ch (by simpa [Shape.noStream] using hn) st _ h (fun ht => hf (by simpa [Shape.hasTbt] using ht))
@@ -879,6 +896,15 @@ theorem C08_tbt_times_tags (h : List Call) :
       = rootExpect .none {} .none h := by
   have := tbt_root h (init .tbt)
   simpa [run, step, init] using this
+
+/-- **C08 (TestByTestResult, a callback that raises).**  In the model a raising `on_test` (`Input.faults`, linear stacks
+over a `TestByTestResult`) is invisible to everything reported later: the trace is that of the same history with a
+well-behaved callback — in particular (`C08_tbt`, `C08_tbt_times_tags`) there still is exactly one callback per
+`stopTest`, the raising one included, and every later callback carries its own test's times, tags and details, not
+those of the test whose callback raised.  (That the code behaves like this model — `TestByTestResult.stopTest` leaves
+the test's tag context before calling `on_test` — is what the correspondence check with faults tests.) -/
+theorem C08_tbt_faults (s : Shape) (h : List Call) (faults : List Nat) :
+    model { shape := s, hist := h, faults := faults } = model { shape := s, hist := h } := rfl
 
 /-! ## the executable specification holds of the model -/
 theorem unique_of_noDup : ∀ (d : Details), hasDupNames (d.map (·.1)) = false → UniqueNames d
@@ -960,10 +986,10 @@ theorem holds_model (i : Input) : holds i (model i) = true := by
       rw [expectV_eq _ _ (hw.imp (tfrView_wf _) id)] at this
       exact this
   · -- tbt used directly
-    obtain ⟨sh, hist⟩ := i
+    obtain ⟨sh, hist, faults⟩ := i
     cases sh <;> try (simp [cTbtRoot])
     have := C08_tbt_times_tags hist
-    have hm : model { shape := Shape.tbt, hist := hist }
+    have hm : model { shape := Shape.tbt, hist := hist, faults := faults }
         = [observe (.tbt (run .tbt (init .tbt) hist))] := rfl
     rw [hm]
     simp only [observe, LeafSt.calls, Bool.or_eq_true, beq_iff_eq]
@@ -1003,6 +1029,14 @@ theorem C08_tbt_table (k : Kind) :
 /-- an empty details dict is details (regression of the former finding `tbtEmptyDetails`) -/
 example : (run .tbt (init .tbt) [.startTest 1, .add .failure 1 (.details []), .stopTest 1] : TbtSt).calls.map proj
     = [(1, some .failure, some [])] := rfl
+
+/-- a callback that raised for a test with test-level tags: the next test is reported with the run-level tags only -/
+example :
+    let i : Input := { shape := .tbt, faults := [1],
+                       hist := [.startTestRun, .tags 1 0, .startTest 1, .tags 2 0, .add .success 1 .none, .stopTest 1,
+                                .startTest 2, .add .success 2 .none, .stopTest 2] }
+    (model i).map (fun l => l.calls.map (fun c => (c.test, c.tags))) = [[(1, 3), (2, 1)]] ∧ holds i (model i) = true := by
+  decide
 
 /-- the forwarding clause is not vacuous: a skip and an unexpected success through
 `MultiTestResult(2.6-style, TestResult)` inside a `ThreadsafeForwardingResult` -/
